@@ -62,12 +62,20 @@ inductive SOp (α : Type) where
   | union (d i : Nat) (js : List Nat)
   | inter (d i : Nat) (js : List Nat)
   | diff (d i : Nat) (js : List Nat)
+  | anyMatch (i : Nat) (p : α → Bool)
+  | allMatch (i : Nat) (p : α → Bool)
+  | firstMatch (i : Nat) (p : α → Bool)
+  | select (d i : Nat) (p : α → Bool)
+  | partitionM (d e i : Nat) (p : α → Bool)
 
 inductive SObs (α : Type) where
   | unit
   | bool (b : Bool)
   | int (n : Int)
   | elems (s : FSet α)
+  /-- `FirstMatch`: any one of these may be returned; "not found" exactly when there is none -/
+  | anyOf (cands : FSet α)
+  | elems2 (s₁ s₂ : FSet α)
   | bad
 
 def getAll (A : List (FSet α)) : List Nat → Option (List (FSet α))
@@ -140,6 +148,30 @@ def sstep (A : List (FSet α)) : SOp α → List (FSet α) × SObs α
     | some a, some bs => if d < A.length then (A.set d (a.diffAll bs), .elems (a.diffAll bs)) else (A, .bad)
     | _, _ => (A, .bad)
 
+  | .anyMatch i p =>
+    match A[i]? with
+    | none => (A, .bad)
+    | some a => (A, .bool (a.any p))
+  | .allMatch i p =>
+    match A[i]? with
+    | none => (A, .bad)
+    | some a => (A, .bool (a.all p))
+  | .firstMatch i p =>
+    match A[i]? with
+    | none => (A, .bad)
+    | some a => (A, .anyOf (a.filter p))
+  | .select d i p =>
+    match A[i]? with
+    | some a => if d < A.length then (A.set d (a.filter p), .elems (a.filter p)) else (A, .bad)
+    | none => (A, .bad)
+  | .partitionM d e i p =>
+    match A[i]? with
+    | some a =>
+      if d < A.length ∧ e < A.length then
+        ((A.set d (a.filter p)).set e (a.filter (fun x => !p x)), .elems2 (a.filter p) (a.filter (fun x => !p x)))
+      else (A, .bad)
+    | none => (A, .bad)
+
 def srun : List (SOp α) → List (FSet α) → List (FSet α) × List (SObs α)
   | [], A => (A, [])
   | op :: ops, A =>
@@ -159,5 +191,26 @@ omit [DecidableEq α] in
 /-- two lists of blocks denote the same family of sets -/
 def SameFamily (P Q : List (List α)) : Prop :=
   (∀ b ∈ P, ∃ b' ∈ Q, ∀ x, x ∈ b ↔ x ∈ b') ∧ (∀ b ∈ Q, ∃ b' ∈ P, ∀ x, x ∈ b ↔ x ∈ b')
+
+/-! ### Bell numbers
+
+Core Lean has no Bell numbers; they are defined here through the Stirling numbers of the second kind
+(`stirling2 n k` = number of partitions of an `n`-set into `k` blocks: the new element forms a block of
+its own or joins one of the `k` blocks), `bell n = Σ_{k ≤ n} stirling2 n k`. -/
+
+def stirling2 : Nat → Nat → Nat
+  | 0, 0 => 1
+  | 0, _ + 1 => 0
+  | _ + 1, 0 => 0
+  | n + 1, k + 1 => stirling2 n k + (k + 1) * stirling2 n (k + 1)
+
+/-- `f 0 + … + f (N-1)` -/
+def sumTo (f : Nat → Nat) : Nat → Nat
+  | 0 => 0
+  | N + 1 => sumTo f N + f N
+
+def bell (n : Nat) : Nat := sumTo (stirling2 n) (n + 1)
+
+example : (List.range 9).map bell = [1, 1, 2, 5, 15, 52, 203, 877, 4140] := by decide
 
 end AlgoVerif.C16.Spec
